@@ -511,9 +511,24 @@ def pat_names(p, acc):
     return acc
 
 
+def nan_assigned(node, acc=None):
+    """names that are assigned the literal `f64::NAN` somewhere: such a float is typed `Option Rat`"""
+    acc = set() if acc is None else acc
+    if isinstance(node, tuple):
+        if node and node[0] == "assign" and node[1] == "=" and node[2][0] == "path" and node[3] == ("path", "f64::NAN"):
+            acc.add(node[2][1])
+        for x in node[1:]:
+            nan_assigned(x, acc)
+    elif isinstance(node, list):
+        for x in node:
+            nan_assigned(x, acc)
+    return acc
+
+
 class Emit:
     def __init__(self):
         self.ind = 0
+        self.nan_vars = set()
 
     # ---- pure expressions -> (text, type)
     def ex(self, e, env, expect=None):
@@ -593,6 +608,10 @@ class Emit:
             if op in ("+", "-", "*", "/"):
                 if ta == tb and ta in ("Nat", "Rat"):
                     return f"({a} {op} {b})", ta
+                if {ta, tb} <= {"Rat", "OptF"}:      # NaN-propagating float arithmetic
+                    la = a if ta == "OptF" else f"(some {a})"
+                    lb = b if tb == "OptF" else f"(some {b})"
+                    return f"(lift2 (· {op} ·) {la} {lb})", "OptF"
                 raise Unsupported(f"arithmetic {ta} {op} {tb}")
             if op in (">>", "<<"):
                 if ta == "Nat" and tb == "Nat":
@@ -915,7 +934,10 @@ class Emit:
                     lines.append(f"let {tuple_txt([lname(o) for o in inner] + [ptxt])} :=\n{indent(txt)}")
                     env.update(tmp)
                 else:
-                    txt, ty = self.ex(e, env, ann if ann in ("Elem", "OptNat", "OptF") else None)
+                    want = ann if ann in ("Elem", "OptNat", "OptF") else None
+                    if p[0] == "pvar" and p[1] in self.nan_vars and s[2]:
+                        want = "OptF"
+                    txt, ty = self.ex(e, env, want)
                     if ty == "NoneLit":
                         raise Unsupported("let of an untyped None")
                     tmp = dict(env)
@@ -946,6 +968,8 @@ class Emit:
                     raise Unsupported(f"assignment of {tr} to {env[n]} variable {n}")
                 if op == "=":
                     lines.append(f"let {lname(n)} := {r}")
+                elif env[n] == "OptF":
+                    lines.append(f"let {lname(n)} := lift2 (· {op[0]} ·) {lname(n)} ({r})")
                 else:
                     lines.append(f"let {lname(n)} := {lname(n)} {op[0]} {r}")
             elif s[0] == "expr":
@@ -1081,6 +1105,7 @@ def translate_idx_fn(name, body_src, sig_src):
     cenv[params[2][1]] = "Elem"
     outs = [n for n, _, _, _ in state]
     body = clos[2]
+    em.nan_vars = nan_assigned(body)
     btxt, bty = em.stmts(body[1], body[2], dict(cenv), outs, "OptF")
     if bty in ("Rat",):
         btxt, bty = em.stmts(body[1], body[2], dict(cenv), outs, "OptF")
